@@ -84,7 +84,7 @@ def _eval_dunder(ctx, repo, cls, name, other):
         return ("raise", r.name)
 
 
-@rule("C11.dunder-agreement", props=["C11", "C04"], min_instances=15, mutants=[
+@rule("C11.dunder-agreement", props=["C11", "C04", "C03", "C05", "C06", "C07", "C16"], min_instances=15, mutants=[
     ("__or__ bound to op", ("taperecorder", "ip = __or__ = partialmethod", "ip = partialmethod")),
     ("__rshift__ bound to proj", [("taperecorder", "sw = __rshift__ = partialmethod", "sw = partialmethod"),
                                  ("taperecorder", "proj = __matmul__ = partialmethod", "proj = __matmul__ = __rshift__ = partialmethod")]),
@@ -415,7 +415,7 @@ def check_coefficient_kind(ctx, repo, qual):
         ctx.violation(c, "a non-blade attribute name returns a value instead of raising AttributeError", fn)
 
 
-@rule("C11.coefficient-kind", props=["C11"], min_instances=10, mutants=[
+@rule("C11.coefficient-kind", props=["C11", "C15"], min_instances=10, mutants=[
     ("coefficient keeps its blade key", ("taperecorder", "                keys=(0,)\n            )\n\n    def grade", "                keys=(self.keys()[idx],)\n            )\n\n    def grade")),
 ])
 def coefficient_kind(ctx):
@@ -448,7 +448,7 @@ def _parse_grade_expr(expr: str):
     return None
 
 
-@rule("C11.grade", props=["C11", "C08", "C04"], min_instances=4, mutants=[
+@rule("C11.grade", props=["C11", "C08", "C04", "C15"], min_instances=4, mutants=[
     ("keys in canonical order, indices in storage order", ("taperecorder", "        indices_keys = [(idx, k) for idx, k in enumerate(self.keys()) if k in basis_blades]\n        indices, keys = zip(*indices_keys) if indices_keys else (tuple(), tuple())",
                                                             "        keys = tuple(k for k in basis_blades if k in self.keys())\n        indices = tuple(idx for idx, k in enumerate(self.keys()) if k in basis_blades)")),
     ("grade selects the complement", ("taperecorder", "for idx, k in enumerate(self.keys()) if k in basis_blades]", "for idx, k in enumerate(self.keys()) if k not in basis_blades]")),
